@@ -26,8 +26,9 @@ def gen(rnd, nh_only=False):
     if not herm and cplx: ev = ev + 1j * rng.uniform(-1, 1, size=N)
     dA = rnd.randint(2, N - 2)
     # degeneracy patterns among the explicit levels (positions are shuffled afterwards)
-    pat = rnd.choice(["none", "pair", "two-pairs", "pair"])
+    pat = rnd.choice(["none", "pair", "two-pairs", "pair", "close-pair"])
     if pat in ("pair", "two-pairs") and dA >= 2: ev[1] = ev[0]
+    if pat == "close-pair": ev[1] = ev[0] + 10.0 ** -rnd.choice([9, 10, 11])      # two explicit levels far closer than anything else, yet far above the degeneracy tolerance
     if pat == "two-pairs" and dA >= 4: ev[3] = ev[2]
     structure = "generic"
     if herm and pat != "none" and dA >= 2 and N >= 4 and rnd.random() < 0.35:
@@ -71,7 +72,7 @@ def gen(rnd, nh_only=False):
         cut = rnd.randint(1, dA - 1); parts = [order[:cut], order[cut:]]
         # a degenerate level split over two coupled subspaces would be ill-posed: keep partners together
         for a, b in ((0, 1), (2, 3)):
-            if a < dA and b < dA and ev[a] == ev[b]:
+            if a < dA and b < dA and (ev[a] == ev[b] or (pat == "close-pair" and (a, b) == (0, 1))):
                 pa = 0 if a in parts[0] else 1
                 if b not in parts[pa]:
                     parts[1 - pa].remove(b); parts[pa].append(b)
@@ -84,6 +85,8 @@ def gen(rnd, nh_only=False):
     solver = "direct"
     if herm and rnd.random() < 0.3: solver = rnd.choice(["kpm", "kpm-aux"])
     fd = tuple(b for b in range(len(parts)) if rnd.random() < 0.3)
+    if pat == "close-pair":      # (eliminating the coupling inside the close pair divides by the splitting: rounding amplified beyond the tolerance of the comparison, in both runs)
+        fd = tuple(b for b in fd if 0 not in parts[b]); solver = "direct"
     return dict(N=N, cplx=cplx, herm=herm, ev=ev, R=R, L=L, H0=H0, H1=pert(0.5), H2=(pert(0.3) if rnd.random() < 0.4 else None), dA=dA, parts=parts,
                 fd=fd, solver=solver, pattern=pat, structure=structure)
 
